@@ -23,6 +23,11 @@ for c in inp["cases"]:
                 dct = {Symbol(k): v for k, v in o_["kwargs"].items()}
                 dct[(Symbol(o_["pair"][0]), Symbol(o_["pair"][1]))] = o_["pair"][2]
                 o = cls.from_dict(dct)
+            elif o_["op"] == "from_data_reshaped":
+                # the right number of elements in the wrong shape (row instead of column, flat, square instead of column):
+                # must be refused like any other wrong shape
+                shp = tuple(o_["raw_shape"])
+                o = cls.from_data(np.arange(int(np.prod(shp)), dtype=float).reshape(shp) + 0.5)
             else:
                 r, cc = o_["shape"]
                 o = cls.from_data(np.arange(r * cc, dtype=float).reshape((r, cc)) + 0.5)
